@@ -92,8 +92,9 @@ fn ref_parse_with(s: &str, strict: bool) -> Option<RAuth> {
 	let hostport = match auth.rfind('@') {
 		Some(i) => {
 			// userinfo = *( unreserved / pct-encoded / sub-delims / ":" ) (RFC 3986); a text with any other character
-			// before the `@` (backslash, quote, braces, ...) is not an authority at all
-			if auth[..i].bytes().any(|b| if strict { !(b.is_ascii_alphanumeric() || b"-._~!$&'()*+,;=:%".contains(&b)) } else { b == b'\\' }) {
+			// before the `@` (backslash, quote, braces, ...) is not an authority at all. A further `@` inside the
+			// userinfo is let through: the `http` crate accepts it and the host begins after the last one
+			if auth[..i].bytes().any(|b| if strict { !(b.is_ascii_alphanumeric() || b"-._~!$&'()*+,;=:%@".contains(&b)) } else { b == b'\\' }) {
 				return None;
 			}
 			&auth[i + 1..]
@@ -346,6 +347,8 @@ pub fn host_text(h: &HostSpec, entries: &[EntrySpec]) -> Option<Vec<u8>> {
 				11 => format!("{scheme}u:80@{host}{port}"),
 				12 => format!("{scheme}{host}{port}:80"),
 				13 => format!("{scheme}{host}:*"),
+				// (userinfo may itself contain an `@`: the host begins after the last one)
+				14 if arg.len() % 2 == 0 => format!("{scheme}a@b:1@{host}{port}"),
 				14 => format!("{scheme}ab:443@{host}"),
 				_ => {
 					let mut h = host.clone();
